@@ -33,6 +33,8 @@ def run(ctx, repo):
                    'from_actions dispatches by name with the logged argument')
     ctx.rule('R2', "three-way letter agreement: action_letter == letters written by Jumper.* == bib_trial dispatch ('-' is a no-op)")
     ctx.rule('R3', 'trials / trial_objs read only the log')
+    ctx.rule('R6', 'every trial mutator re-ranks unconditionally (top-level self._rank())')
+    ctx.rule('R7', '_rank takes no decision from the dismissed flag (set by a clearance and by a pass alike)')
     ctx.rule('R5', 'a refused trial changes nothing on the card (effect-before-raise on the Jumper trial methods)')
     ctx.rule('R4', 'to_matrix exports every bar position: its header iterates self.heights unsliced and unfiltered')
 
@@ -198,6 +200,36 @@ def run(ctx, repo):
                     're-imported card differ from the original' % (r['entry'][0], r['entry'][1], r['write']), {'path': r['trace']})
     if not A5.reports:
         ctx.ok('R5', 'the trial methods of Jumper change nothing before a refusal (%d abstract states)' % A5.states_explored)
+    # ---- R6 order independence needs the standing to be recomputed after every trial: each trial mutator ends with an unconditional
+    # self._rank() at the top level of its body (a re-rank skipped "because nothing moved" also skips the state transition)
+    for m_ in ('cleared', 'failed', 'passed', 'retired'):
+        f_ = Cm.get(m_)
+        if f_ is None:
+            raise AnalysisError('anchor vanished: %s.%s' % (COMP, m_))
+        top = [st for st in f_.body if isinstance(st, ast.Expr) and isinstance(st.value, ast.Call) and call_name(st.value) == '_rank']
+        anyw = [c for c in ast.walk(f_) if isinstance(c, ast.Call) and call_name(c) == '_rank']
+        if top:
+            ctx.ok('R6', '%s re-ranks unconditionally' % m_)
+        else:
+            ctx.finding('R6', '%s::%s.%s::re-rank is conditional' % (HJ, COMP, m_), HJ, (anyw[0].lineno if anyw else f_.lineno),
+                        '%s calls _rank() only under a condition (or not at all): _rank also moves the competition state, so whether the '
+                        'competition ends depends on which athlete of a round jumped last - two orders of the same trials end in different states' % m_,
+                        'jump-off at a bar not above the best: loser fails first, then winner clears')
+    # ---- R7 the flag `dismissed` means "done at this bar" - set by a clearance AND by a pass: no decision of _rank may read it as a
+    # clearance (the card of the current bar is what says whether it was cleared)
+    rk_ = Cm.get('_rank')
+    if rk_ is None:
+        raise AnalysisError('anchor vanished: _rank')
+    set_by = {m_ for m_, f_ in Jm.items() for a in ast.walk(f_) if isinstance(a, ast.Assign) and isinstance(a.value, ast.Constant) and a.value.value is True
+              and any(isinstance(t, ast.Attribute) and t.attr == 'dismissed' for t in a.targets)}
+    reads = [n for n in ast.walk(rk_) if isinstance(n, ast.Attribute) and n.attr == 'dismissed' and isinstance(n.ctx, ast.Load)]
+    if reads and {'passed', 'cleared'} <= set_by:
+        ctx.finding('R7', '%s::%s._rank::decision reads the dismissed flag' % (HJ, COMP), HJ, reads[0].lineno,
+                    '_rank decides on `%s`, but dismissed is set by %s alike: a pass by the last athlete standing counts as the winning clearance, '
+                    'and since the card import skips pass marks the re-imported competition is in another state' % (
+                        unparse(reads[0]), sorted(set_by)), 'sole survivor passes at the bar where the last rival goes out')
+    else:
+        ctx.ok('R7', '_rank does not read the dismissed flag (set by %s)' % sorted(set_by))
     # ---- R4 the exported card names every bar position: the header of to_matrix iterates self.heights itself (no slice, no filter);
     # a height that nobody has tried yet is state (bar_height, dismissed flags, 'started') and must survive export / import
     tm = Cm.get('to_matrix')
